@@ -34,4 +34,5 @@ def check(ctx, run):
     intarith.table_index_sites(ctx, run, 'R20.3', cone, floor=1)
     from rules import c08 as _c08
     _c08.r08_4(ctx, run, rule='R20.4/R08.4')
+    intarith.param_cast_sites(ctx, run, 'R20.5', floor=1)
     return report.finish(run, level='other', explanation=EXPLANATION, assumptions=ASSUME)
